@@ -177,14 +177,38 @@ def run(case):
                     skipped = True
                 else:
                     mode = op[3] if k == "align" else "best"
-                    if mode == "best":
-                        al = c.get_best_alignment(d)
-                    elif mode == "soft":
-                        al = c.get_best_soft_alignment(d)
-                    else:
-                        al = c.get_fast_alignment(d, int(mode[-1]))
-                    if k == "disorder":
-                        al.compute_disorder(d)
+
+                    def do_align():
+                        if mode == "best":
+                            al = c.get_best_alignment(d)
+                        elif mode == "soft":
+                            al = c.get_best_soft_alignment(d)
+                        else:
+                            al = c.get_fast_alignment(d, int(mode[-1]))
+                        if k == "disorder":
+                            al.compute_disorder(d)
+                    # under the simulator with an observer thread: the input must look unchanged at every instant
+                    c_before, d_before = snap_cont(c), snap_dissim(d)
+                    transient = []
+
+                    def watch():
+                        now = snap_cont(c)
+                        if now != c_before and not transient:
+                            transient.append("continuum: " + ",".join(FIELDS[j] for j in range(5) if now[j] != c_before[j]))
+                        if snap_dissim(d) != d_before and not transient:
+                            transient.append("dissimilarity")
+                        stats["watcher_observations"] = stats.get("watcher_observations", 0) + 1
+                    out = common.sim_call(do_align, {"workers": 1, "policy": {"policy": "random", "seed": step * 7919 + op[1],
+                                                                              "p_line": 0.05, "p_coarse": 0.5},
+                                                     "trace_lines": True}, watcher=watch)
+                    common.sim_stats(out, stats)
+                    if transient:
+                        violation = {"kind": "input_modified_during_computation",
+                                     "msg": f"step {step} {op[:4]}: an observer thread saw the input {transient[0]} changed while the "
+                                            f"{mode} alignment was being computed (it may have been restored afterwards)",
+                                     "sig": {"op": k, "what": transient[0].split(":")[0]}, "step": step}
+                    if out.error is not None:
+                        raise out.error
             elif k == "gamma":
                 idx = op[1] % len(w.conts)
                 c, origin = w.conts[idx]
